@@ -65,6 +65,26 @@ MUTANTS = [
     ("m36", "C18", M, "                if i == cd.MESSAGE_TRAFFIC_SIZE - 1:", "                if i == cd.MESSAGE_TRAFFIC_SIZE - 2:", "sub-message sent one entry early"),
     ("m37", "C10", "src/pyrtma/message.py", "        if hdr.version != 0 and hdr.version != msg_cls.type_hash:", "        if hdr.version != 0 and hdr.version != msg_cls.type_hash and hdr.version != hdr.msg_type:", "version check weakened (harmless alternative accepted)"),
     ("m38", "C13", C, "                    header.version = msg_data.type_hash\n", "                    header.version = msg_data.type_hash if not self._header_cls.__name__.startswith(\"TimeCode\") else 0\n", "timecode layout leaves version 0"),
+    # ---- second batch (after round 3 of the sub-agent breaks): dimensions the first batch did not touch
+    ("m39", "C18", M, "        for mod in self.modules.values():\n            data.ModulePID[mod.mod_id] = mod.pid\n", "        for mod in self.modules.values():\n            if mod.mod_id < cd.DYN_MOD_ID_START:\n                data.ModulePID[mod.mod_id] = mod.pid\n", "pids of dynamic-id modules are not reported"),
+    ("m40", "C18", M, "        src_module.pid = mr.pid\n", "        src_module.pid = src_module.pid or mr.pid\n", "MODULE_READY does not replace a pid given at connect"),
+    ("m41", "C01", M, "            for sub_type in src_module.subs:\n                self.subscriptions[sub_type].discard(src_module)\n            src_module.subs.clear()\n\n            self.subscriptions[sub.msg_type].add(src_module)",
+     "            src_module.subs.clear()\n\n            self.subscriptions[sub.msg_type].add(src_module)", "SUBSCRIBE(ALL) leaves the individual routing entries (double delivery)"),
+    ("m42", "C19", M, "            self.pause_subscription(src_module, self.message)\n            self.send_ack(src_module)", "            self.pause_subscription(src_module, self.message)", "PAUSE_SUBSCRIPTION is not acknowledged"),
+    ("m43", "C19", M, "            self.set_module_name(src_module, self.message)\n            self.send_client_info(src_module)", "            self.set_module_name(src_module, self.message)\n            self.send_ack(src_module)\n            self.send_client_info(src_module)", "CLIENT_SET_NAME is acknowledged"),
+    ("m44", "C06", M, "                    if (m.unique or module.unique) and (m.name == module.name):", "                    if (m.unique or module.unique) and (m.name == module.name) and m.mod_id != module.mod_id:", "name rule skipped for modules sharing the id"),
+    ("m45", "C06", M, "        module.is_daemon = msg.data.daemon_status == 1", "        module.is_daemon = msg.data.logger_status == 1", "daemon flag taken from the logger flag"),
+    ("m46", "C14", M, "        data.dest_mod_id = dest_module.mod_id\n        data.time_of_failure", "        data.dest_mod_id = header.dest_mod_id\n        data.time_of_failure", "notice names the header's destination instead of the failed subscriber"),
+    ("m47", "C14", M, "        for fname, ftype, *_ in data.msg_header._fields_:\n            setattr(data.msg_header, fname, getattr(header, fname))", "        for fname, ftype, *_ in data.msg_header._fields_:\n            if fname != \"_src_mod_id\":\n                setattr(data.msg_header, fname, getattr(header, fname))", "notice loses the original source"),
+    ("m48", "C08", C, "            if (\n                ack and M.header.msg_type == cd.MT_ACKNOWLEDGE\n            ):", "            if (\n                M.header.msg_type == cd.MT_ACKNOWLEDGE\n            ):", "ACKs are returned by read_message without ack=True"),
+    ("m49", "C08", C, "        if sync_check and header.version != 0 and header.version != data.type_hash:", "        if sync_check and header.version != data.type_hash:", "version 0 refused under sync_check"),
+    ("m50", "C02", C, "                self._subscribed_types -= msg_set\n                self._paused_types |= msg_set", "                self._paused_types |= msg_set & self._subscribed_types\n                self._subscribed_types -= msg_set", "pausing a type that is not subscribed is not recorded as paused"),
+    ("m51", "C07", M, "        self.send_client_close(module)\n        del self.modules[module.conn]", "        del self.modules[module.conn]", "no CLIENT_CLOSED at all"),
+    ("m52", "C01", M, "            self.subscriptions[unsub.msg_type].discard(src_module)\n\n            # Clear out the individual subs\n            for sub_type in src_module.subs:\n                self.subscriptions[sub_type].discard(src_module)\n            src_module.subs.clear()",
+     "            self.subscriptions[unsub.msg_type].discard(src_module)\n            src_module.subs.discard(unsub.msg_type)", "UNSUBSCRIBE(ALL) leaves individual subscriptions in place"),
+    ("m53", "C05", M, "        for module, err in undelivered:\n            if err is not None:\n                if self.modules.get(module.conn) is module:\n                    self.remove_module(module)", "        for module, err in reversed(undelivered):\n            if err is not None:\n                if self.modules.get(module.conn) is module:\n                    self.remove_module(module)", "failure reports in reverse order (still consistent for all receivers?)"),
+    ("m54", "C03", M, "        except UnicodeDecodeError:\n            self.logger.warning(\n                f\"SET_NAME", "        except UnicodeEncodeError:\n            self.logger.warning(\n                f\"SET_NAME", "wrong exception class guards CLIENT_SET_NAME"),
+    ("m55", "C09", V, "        if not value.isascii():\n            raise TypeError(f\"Expected {value} to only contain valid ascii points\")\n\n    def validate_many(self, value):", "        if not value.isprintable() and not value.isascii():\n            raise TypeError(f\"Expected {value} to only contain valid ascii points\")\n\n    def validate_many(self, value):", "printable non-ASCII strings pass the String check (encode then raises late)"),
 ]
 
 
